@@ -1194,3 +1194,384 @@ Proof.
   - (* U1 *) fin_tac. apply (binv_fin s t T); auto; try congruence. rewrite <- HT; lia.
   - (* Fin *) exact B.
 Qed.
+
+Lemma init_binv K P C NN progs : BInv (init K P C NN progs).
+Proof.
+  constructor.
+  - intros t. eapply start_blocal. apply (init_thr_ok K P C NN progs t).
+  - intros t _. apply (init_thr_ok K P C NN progs t).
+  - intros t. destruct (init_thr_ok K P C NN progs t) as (_ & E & _). rewrite E. cbn. lia.
+Qed.
+
+(* ================================================================== *)
+(* H. layer 5: retire_threshold = 2*K*(records - joiners that still have
+      to bump this record)                                              *)
+(* ================================================================== *)
+Definition inb (r : nat) (l : list nat) : bool := existsb (Nat.eqb r) l.
+
+Lemma inb_In r l : inb r l = true <-> In r l.
+Proof.
+  unfold inb. rewrite existsb_exists. split.
+  - intros [x [Hx E]]. apply Nat.eqb_eq in E. subst; auto.
+  - intros H. exists r. split; auto. apply Nat.eqb_refl.
+Qed.
+
+Lemma inb_ext r l l' : (In r l <-> In r l') -> inb r l = inb r l'.
+Proof.
+  intros H. destruct (inb r l) eqn:A, (inb r l') eqn:B; auto.
+  - apply inb_In in A. apply H in A. apply inb_In in A. congruence.
+  - apply inb_In in B. apply H in B. apply inb_In in B. congruence.
+Qed.
+
+(* does the joiner with record r' (thread state T') still have to bump r ? *)
+Definition pendb (rc : list nat) (T' : tst) (r' r : nat) : bool :=
+  match pc T' with
+  | J7 => inb r (tl (from r' rc))
+  | J8 => inb r (from (cur T') rc)
+  | J9 => inb r (tl (from (cur T') rc))
+  | _ => false
+  end.
+
+Definition pendf (rc : list nat) (th : nat -> tst) (r : nat) : nat -> bool :=
+  fun r' => pendb rc (th (pred r')) r' r.
+
+Definition pend (s : st) (r : nat) : nat := length (filter (pendf (recs s) (thr s) r) (recs s)).
+
+Record TInv (s : st) : Prop := {
+  t_eq : forall r, In r (recs s) -> rthr s r + 2 * pend s r * kslots s = 2 * length (recs s) * kslots s
+}.
+
+Lemma filter_count_same (f g : nat -> bool) l :
+  (forall x, In x l -> f x = g x) -> length (filter f l) = length (filter g l).
+Proof. intros H. rewrite (filter_ext_in f g l H). reflexivity. Qed.
+
+Lemma filter_count_one (f g : nat -> bool) l x :
+  NoDup l -> In x l -> f x = true -> g x = false -> (forall y, In y l -> y <> x -> f y = g y) ->
+  length (filter f l) = S (length (filter g l)).
+Proof.
+  induction l as [|a l IH]; intros Hnd Hin Hf Hg Ho; [destruct Hin|].
+  inversion Hnd as [|? ? Ha Hnd']; subst. cbn [filter].
+  destruct (Nat.eq_dec a x) as [->|Hne].
+  - rewrite Hf, Hg. cbn [length]. f_equal. apply filter_count_same.
+    intros y Hy. apply Ho; [right; auto|]. intros ->. tauto.
+  - rewrite (Ho a); [|left; auto|auto]. destruct Hin as [|Hin]; [congruence|].
+    assert (E := IH Hnd' Hin Hf Hg (fun y Hy => Ho y (or_intror Hy))).
+    destruct (g a); cbn [length]; lia.
+Qed.
+
+Lemma pendf_other rc th t T' r r' :
+  r' <> 0 -> r' <> S t -> pendf rc (upd th t T') r r' = pendf rc th r r'.
+Proof.
+  intros H0 Ht. unfold pendf. rewrite upd_other; auto. destruct r'; [tauto|]. cbn. congruence.
+Qed.
+
+Lemma pendf_self rc th t T' r : pendf rc (upd th t T') r (S t) = pendb rc T' (S t) r.
+Proof. unfold pendf. cbn [pred]. now rewrite upd_same. Qed.
+
+(* thread t's own contribution is unchanged, recs untouched, rthr untouched on
+   published records *)
+Lemma tinv_frame s s' t T' :
+  RInv s -> TInv s -> recs s' = recs s -> (forall r, In r (recs s) -> rthr s' r = rthr s r) ->
+  kslots s' = kslots s -> thr s' = upd (thr s) t T' ->
+  (forall r, pendb (recs s) T' (S t) r = pendb (recs s) (thr s t) (S t) r) -> TInv s'.
+Proof.
+  intros I [Teq] Er Et EK Ethr Hp. constructor. rewrite Er, EK. intros r Hr. rewrite (Et r Hr).
+  rewrite <- (Teq r Hr). unfold pend. rewrite Er, Ethr. do 3 f_equal.
+  apply filter_count_same. intros r' Hr'.
+  assert (r' <> 0) by (intros ->; apply (r_nz s I); auto).
+  destruct (Nat.eq_dec r' (S t)) as [->|Hne].
+  - rewrite pendf_self. unfold pendf. cbn [pred]. apply Hp.
+  - apply pendf_other; auto.
+Qed.
+
+Definition bumping (T : tst) : Prop := pc T = J7 \/ pc T = J8 \/ pc T = J9.
+
+Lemma pendb_idle rc T r' r : ~ bumping T -> pendb rc T r' r = false.
+Proof. unfold bumping, pendb. destruct (pc T); auto; tauto. Qed.
+
+Lemma start_idle K C T : start_ok K C T -> ~ bumping T.
+Proof. unfold start_ok, bumping. destruct (pc T); intros H [X|[X|X]]; try discriminate; auto. Qed.
+
+Lemma tinv_idle s s' t T' :
+  RInv s -> TInv s -> recs s' = recs s -> rthr s' = rthr s -> kslots s' = kslots s ->
+  thr s' = upd (thr s) t T' -> ~ bumping (thr s t) -> ~ bumping T' -> TInv s'.
+Proof.
+  intros I T Er Et EK Ethr B1 B2. eapply tinv_frame; eauto.
+  - intros r _. now rewrite Et.
+  - intros r. rewrite !pendb_idle; auto.
+Qed.
+
+Lemma tinv_fin s t T2 :
+  RInv s -> TInv s -> (forall r, pendb (recs s) (thr s t) (S t) r = false) ->
+  start_ok (kslots s) (ncell s) T2 -> TInv (set_thr s t T2).
+Proof.
+  intros I TI Hb Hs. eapply (tinv_frame s _ t); try reflexivity; auto.
+  intros r. rewrite Hb. apply pendb_idle. eapply start_idle; eauto.
+Qed.
+
+Ltac not_bumping := unfold bumping; tsimp; ifs; intros [X|[X|X]]; try discriminate; try congruence.
+
+Lemma tinv_step s t : RInv s -> TInv s -> TInv (fst (step sort s t)).
+Proof.
+  intros I TI. pose proof TI as [Teq].
+  pose proof I as [IK Ih Ind Inz Il Ij It Iloc].
+  unfold step. remember (thr s t) as T eqn:HT.
+  assert (LT := Iloc t). rewrite <- HT in LT. unfold rlocal, rlocalP in LT.
+  assert (JT : joined T = true <-> In (S t) (recs s)) by (rewrite HT; apply Ij).
+  assert (IdleT : forall r, ~ bumping T -> pendb (recs s) (thr s t) (S t) r = false).
+  { intros r X. apply pendb_idle. rewrite <- HT. exact X. }
+  destruct (pc T) eqn:Hpc; cbn [fst].
+  - (* J1 *) eapply (tinv_idle s _ t); try reflexivity; auto; try (rewrite <- HT); not_bumping.
+  - (* J2 *) eapply (tinv_idle s _ t); try reflexivity; auto; try (rewrite <- HT); not_bumping.
+  - (* J3 *) eapply (tinv_idle s _ t); try reflexivity; auto; try (rewrite <- HT); not_bumping.
+  - (* J4 *) eapply (tinv_idle s _ t); try reflexivity; auto; try (rewrite <- HT); not_bumping.
+  - (* J5 *) destruct LT as (J & _).
+    assert (NI : ~ In (S t) (recs s)) by (intros X; apply JT in X; congruence).
+    eapply (tinv_frame s _ t); try reflexivity; auto; ssimp.
+    + intros r Hr. apply upd_other. intros ->. tauto.
+    + intros r. rewrite !pendb_idle; auto; try (rewrite <- HT); not_bumping.
+  - (* J6 *) destruct LT as (J & O & Nx & Hth).
+    assert (NI : ~ In (S t) (recs s)) by (intros X; apply JT in X; congruence).
+    destruct (Nat.eqb_spec (head s) (chead T)) as [E|E]; cbn [fst].
+    2:{ eapply (tinv_idle s _ t); try reflexivity; auto; try (rewrite <- HT); not_bumping. }
+    assert (Efrom : from (chead T) (recs s) = recs s) by (rewrite <- E, Ih; apply from_hd; auto).
+    assert (Fr : forall c, In c (recs s) -> from c (S t :: recs s) = from c (recs s)).
+    { intros c Hc. apply from_cons_ne. intros <-. tauto. }
+    (* the contribution of an already published record is unchanged *)
+    assert (Old : forall r r', In r' (recs s) ->
+              pendf (S t :: recs s) (upd (thr s) t (set_pc (set_joined T true) J7)) r r' =
+              pendf (recs s) (thr s) r r').
+    { intros r r' Hr'. assert (r' <> 0) by (intros ->; tauto).
+      assert (r' <> S t) by (intros ->; tauto).
+      rewrite pendf_other by auto. unfold pendf, pendb.
+      assert (Lu := Iloc (pred r')). unfold rlocal, rlocalP in Lu.
+      destruct (pc (thr s (pred r'))); auto.
+      - rewrite Fr; auto.
+      - destruct Lu as [_ Lu]. rewrite Fr; auto. eapply tl_from_incl; eauto.
+      - destruct Lu as [_ Lu]. rewrite Fr; auto. eapply tl_from_incl; eauto. }
+    constructor; ssimp. cbn [In length]. intros r [<-|Hr].
+    + (* the new head: exact threshold, nobody has to bump it *)
+      unfold pend; ssimp. cbn [filter]. rewrite pendf_self. unfold pendb at 1; tsimp.
+      cbn [from]. rewrite Nat.eqb_refl. cbn [tl].
+      replace (inb (S t) (recs s)) with false
+        by (symmetry; destruct (inb (S t) (recs s)) eqn:X; auto; apply inb_In in X; tauto).
+      replace (length (filter _ (recs s))) with 0; [rewrite Hth, Efrom; lia|].
+      symmetry. apply length_zero_iff_nil.
+      assert (Z : forall l, (forall x, In x l -> In x (recs s)) ->
+                filter (pendf (S t :: recs s) (upd (thr s) t (set_pc (set_joined T true) J7)) (S t)) l = []).
+      { induction l as [|a l IHl]; intros Hl; cbn [filter]; auto.
+        rewrite Old by (apply Hl; left; auto). rewrite IHl by (intros; apply Hl; right; auto).
+        assert (Ha : In a (recs s)) by (apply Hl; left; auto).
+        unfold pendf, pendb. destruct (pc (thr s (pred a))); auto;
+          match goal with |- (if inb ?x ?l then _ else _) = _ =>
+            destruct (inb x l) eqn:X; auto; apply inb_In in X; exfalso; apply NI end.
+        - eapply tl_from_incl; eauto.
+        - eapply from_incl; eauto.
+        - eapply tl_from_incl; eauto. }
+      apply Z. auto.
+    + (* an older record: one more joiner has to bump it *)
+      unfold pend; ssimp. cbn [filter]. rewrite pendf_self. unfold pendb at 1; tsimp.
+      cbn [from]. rewrite Nat.eqb_refl. cbn [tl].
+      replace (inb r (recs s)) with true by (symmetry; apply inb_In; auto). cbn [length].
+      rewrite (filter_count_same _ (pendf (recs s) (thr s) r)) by (intros; apply Old; auto).
+      specialize (Teq r Hr). unfold pend in Teq. lia.
+  - (* J7 *) assert (Hin : In (S t) (recs s)) by (apply JT; exact LT).
+    destruct (from_next (rnext s) (recs s) (S t) Ind Il Inz Hin) as [[A B]|[A [B D]]].
+    + rewrite A. cbn [Nat.eqb]. fin_tac. apply tinv_fin; auto; [|apply Hfin].
+      intros r. unfold pendb. rewrite <- HT, Hpc, B. reflexivity.
+    + destruct (Nat.eqb_spec (rnext s (S t)) 0) as [E|_]; [contradiction|]. cbn [fst].
+      eapply (tinv_frame s _ t); try reflexivity; auto.
+      intros r. unfold pendb. rewrite <- HT, Hpc; tsimp. rewrite D. reflexivity.
+  - (* J8 *) destruct LT as [J Hc]. assert (Hcr : In (cur T) (recs s)) by (eapply tl_from_incl; eauto).
+    assert (Hin : In (S t) (recs s)) by (apply JT; auto).
+    destruct (from_in_hd _ _ Hcr) as [tl0 Etl].
+    assert (NDf : NoDup (cur T :: tl0)) by (rewrite <- Etl; apply NoDup_from; auto).
+    apply NoDup_cons_iff in NDf. destruct NDf as [Hnt _].
+    constructor; ssimp. intros r Hr. specialize (Teq r Hr). unfold pend in *; ssimp.
+    destruct (Nat.eq_dec r (cur T)) as [->|Hne].
+    + rewrite upd_same.
+      rewrite (filter_count_one (pendf (recs s) (thr s) (cur T)) (pendf (recs s) (upd (thr s) t (set_pc T J9)) (cur T))
+                 (recs s) (S t)) in Teq; auto.
+      * lia.
+      * unfold pendf, pendb. cbn [pred]. rewrite <- HT, Hpc. apply inb_In. rewrite Etl. left; auto.
+      * rewrite pendf_self. unfold pendb; tsimp. rewrite Etl. cbn [tl].
+        destruct (inb (cur T) tl0) eqn:X; auto. apply inb_In in X. tauto.
+      * intros y Hy Hne. symmetry. apply pendf_other; auto. intros ->. tauto.
+    + rewrite upd_other by auto. rewrite <- Teq. do 3 f_equal. apply filter_count_same.
+      intros r' Hr'. assert (r' <> 0) by (intros ->; tauto).
+      destruct (Nat.eq_dec r' (S t)) as [->|Hn2]; [|apply pendf_other; auto].
+      rewrite pendf_self. unfold pendf, pendb. cbn [pred]. rewrite <- HT, Hpc; tsimp.
+      apply inb_ext. rewrite Etl. cbn [tl In]. split; [auto|]. intros [X|X]; [congruence|auto].
+  - (* J9 *) destruct LT as [J Hc]. assert (Hcr : In (cur T) (recs s)) by (eapply tl_from_incl; eauto).
+    destruct (from_next (rnext s) (recs s) (cur T) Ind Il Inz Hcr) as [[A B]|[A [B D]]].
+    + rewrite A. cbn [Nat.eqb]. fin_tac. apply tinv_fin; auto; [|apply Hfin].
+      intros r. unfold pendb. rewrite <- HT, Hpc, B. reflexivity.
+    + destruct (Nat.eqb_spec (rnext s (cur T)) 0) as [E|_]; [contradiction|]. cbn [fst].
+      eapply (tinv_frame s _ t); try reflexivity; auto.
+      intros r. unfold pendb. rewrite <- HT, Hpc; tsimp. rewrite D. reflexivity.
+  - (* P1 *) eapply (tinv_idle s _ t); try reflexivity; auto; try (rewrite <- HT); not_bumping.
+  - (* P2 *) eapply (tinv_idle s _ t); try reflexivity; auto; try (rewrite <- HT); not_bumping.
+  - (* P3 *) destruct (cell s (cj T) =? nd T); fin_tac; (apply tinv_fin; auto; [|apply Hfin]);
+      intros r; apply IdleT; not_bumping.
+  - (* C1 *) fin_tac. eapply (tinv_idle s _ t); try reflexivity; auto.
+    + rewrite <- HT. not_bumping.
+    + eapply start_idle. apply Hfin.
+  - (* X0 *) destruct (pool s) as [|f p]; cbn [fst].
+    + fin_tac. apply tinv_fin; auto; [|apply Hfin]. intros r; apply IdleT; not_bumping.
+    + eapply (tinv_idle s _ t); try reflexivity; auto; try (rewrite <- HT); not_bumping.
+  - (* X1 *) eapply (tinv_idle s _ t); try reflexivity; auto; try (rewrite <- HT); not_bumping.
+  - (* R1 *) destruct (rthr s (S t) <=? length (rlist T)); cbn [fst].
+    + eapply (tinv_idle s _ t); try reflexivity; auto; try (rewrite <- HT); not_bumping.
+    + fin_tac. apply tinv_fin; auto; [|apply Hfin]. intros r; apply IdleT; not_bumping.
+  - (* S1 *) eapply (tinv_idle s _ t); try reflexivity; auto; try (rewrite <- HT); not_bumping.
+  - (* S2 *) eapply (tinv_idle s _ t); try reflexivity; auto; try (rewrite <- HT); not_bumping.
+  - (* S3 *) eapply (tinv_idle s _ t); try reflexivity; auto; try (rewrite <- HT); not_bumping.
+  - (* S4 *) destruct (rnext s (cur T) =? 0); cbn [fst].
+    + fin_tac. eapply (tinv_idle s _ t); try reflexivity; auto.
+      * rewrite <- HT. not_bumping.
+      * eapply start_idle. apply Hfin.
+    + eapply (tinv_idle s _ t); try reflexivity; auto; try (rewrite <- HT); not_bumping.
+  - (* U1 *) fin_tac. apply tinv_fin; auto; [|apply Hfin]. intros r; apply IdleT; not_bumping.
+  - (* Fin *) exact TI.
+Qed.
+
+Lemma init_tinv K P C NN progs : TInv (init K P C NN progs).
+Proof.
+  constructor. cbn [recs rthr kslots init]. intros r Hr. apply down_in in Hr.
+  destruct (Nat.leb_spec 1 r); [|lia]. destruct (Nat.leb_spec r P); [|lia]. cbn [andb].
+  rewrite down_length. unfold pend. cbn [recs init].
+  replace (length (filter _ (down P))) with 0; [lia|].
+  symmetry. apply length_zero_iff_nil.
+  assert (Z : forall rc l, filter (pendf rc (thr (init K P C NN progs)) r) l = []).
+  { intros rc l. induction l as [|a l IH]; cbn [filter]; auto.
+    unfold pendf at 1. rewrite pendb_idle; auto.
+    eapply start_idle. apply (init_thr_ok K P C NN progs (pred a)). }
+  apply Z.
+Qed.
+
+(* ================================================================== *)
+(* I. the combined invariant over every reachable state                 *)
+(* ================================================================== *)
+Record Inv (s : st) : Prop := {
+  i_r : RInv s; i_n : NInv s; i_v : VInv s; i_b : BInv s; i_t : TInv s
+}.
+
+Lemma init_inv K P C NN progs : 1 <= K -> Inv (init K P C NN progs).
+Proof.
+  intros HK. constructor; [apply init_rinv; auto|apply init_ninv|apply init_vinv|apply init_binv|apply init_tinv].
+Qed.
+
+Lemma step_inv s t : Inv s -> Inv (fst (step sort s t)).
+Proof.
+  intros [R N V B T]. constructor.
+  - apply rinv_step; auto.
+  - apply ninv_step; auto.
+  - apply vinv_step; auto.
+  - apply binv_step; auto.
+  - apply tinv_step; auto.
+Qed.
+
+Theorem reachable_inv K P C NN progs s :
+  1 <= K -> reachable (M sort) (init K P C NN progs) s -> Inv s.
+Proof.
+  intros HK. apply (invariant_ind (M sort) Inv (init K P C NN progs)).
+  - apply init_inv; auto.
+  - intros s0 t I _. apply step_inv; exact I.
+Qed.
+
+(* ================================================================== *)
+(* J. the statements used by Properties_C14.v                           *)
+(* ================================================================== *)
+(* nodes passed to the gc callback if thread t is granted now, in call order *)
+Definition gc_list (s : st) (t : nat) : list nat :=
+  match pc (thr s t) with
+  | S4 => if rnext s (cur (thr s t)) =? 0
+          then scan_gc sort (snap (thr s t)) (rlist (thr s t)) else []
+  | _ => []
+  end.
+
+(* the retired list the scan leaves behind *)
+Definition keep_list (s : st) (t : nat) : list nat :=
+  scan_keep sort (snap (thr s t)) (rlist (thr s t)).
+
+Definition scan_ends (s : st) (t : nat) : Prop :=
+  pc (thr s t) = S4 /\ rnext s (cur (thr s t)) = 0.
+
+(* tie of gc_list/keep_list to the step function: the gc events of the step
+   are exactly gc_list, the pool receives them, the retired list becomes keep_list *)
+Lemma scan_end_step s t : scan_ends s t ->
+  let s' := fst (step sort s t) in
+  pool s' = rev (gc_list s t) ++ pool s /\
+  rlist (thr s' t) = keep_list s t /\
+  exists e1 e2, snd (step sort s t) = e1 ++ gc_events t (gc_list s t) ++ e2.
+Proof.
+  intros [Hpc Hnx]. unfold step, gc_list, keep_list. rewrite Hpc, Hnx. cbn [Nat.eqb].
+  pose proof (finish_ok (kslots s) (ncell s) t
+    (set_rlist (thr s t) (scan_keep sort (snap (thr s t)) (rlist (thr s t))))
+    (Z.of_nat (length (scan_keep sort (snap (thr s t)) (rlist (thr s t)))))) as [[_ [A _]] _].
+  destruct (finish _ _ _ _ _) as [T2 e2]. cbn [fst snd] in *. ssimp. rewrite upd_same.
+  split; auto. split; auto. eexists. eexists. reflexivity.
+Qed.
+
+(* no step other than the end of a scan calls the gc callback *)
+Lemma gc_only_at_scan_end s t : ~ scan_ends s t -> gc_list s t = [].
+Proof.
+  unfold scan_ends, gc_list. destruct (pc (thr s t)); auto.
+  destruct (Nat.eqb_spec (rnext s (cur (thr s t))) 0); auto. tauto.
+Qed.
+
+Lemma safe_of_inv s t u i :
+  Inv s -> held (thr s u) i <> 0 -> ~ In (held (thr s u) i) (gc_list s t).
+Proof.
+  intros I Hn. unfold gc_list. destruct (pc (thr s t)) eqn:Hpc; auto.
+  destruct (Nat.eqb_spec (rnext s (cur (thr s t))) 0) as [E|E]; auto.
+  apply safe_gc; auto; apply I.
+Qed.
+
+(* what "validated" means in the model: the only step that sets held[i] is
+   the validating re-read of the source cell, after slot i was written *)
+Lemma held_set_only_by_validation s t u i :
+  Inv s -> held (thr (fst (step sort s t)) u) i <> 0 -> held (thr s u) i = 0 ->
+  u = t /\ pc (thr s t) = P3 /\ i = sl (thr s t) /\
+  cell s (cj (thr s t)) = nd (thr s t) /\ slot s (S t) i = nd (thr s t) /\
+  held (thr (fst (step sort s t)) u) i = nd (thr s t).
+Proof.
+  intros I Hn H0.
+  assert (HF : forall T v, held (fst (finish (kslots s) (ncell s) t T v)) = held T).
+  { intros T v. apply (finish_ok (kslots s) (ncell s) t T v). }
+  destruct (Nat.eq_dec u t) as [->|Hne].
+  2:{ exfalso. apply Hn. rewrite <- H0. f_equal.
+      unfold step. destruct (pc (thr s t)); cbn [fst]; ifs; try reflexivity;
+        repeat match goal with |- context [finish ?K ?C ?t ?T ?v] => destruct (finish K C t T v) end;
+        try (destruct (pool s)); cbn [fst]; ssimp; rewrite ?upd_other by auto; reflexivity. }
+  unfold step in Hn |- *. remember (thr s t) as T eqn:HT.
+  destruct (pc T) eqn:Hpc; cbn [fst] in Hn |- *;
+    try (exfalso; apply Hn; ifs; cbn [fst]; ssimp; rewrite ?upd_same; tsimp; exact H0);
+    try (exfalso; apply Hn; ifs;
+         repeat match goal with |- context [finish ?K ?C ?t ?T ?v] =>
+                  let E := fresh in pose proof (HF T v) as E; destruct (finish K C t T v) end;
+         cbn [fst] in *; ssimp; rewrite ?upd_same; tsimp; congruence).
+  - (* P2 *) exfalso. apply Hn. ssimp. rewrite upd_same. tsimp. unfold upd.
+    destruct (i =? sl T); auto.
+  - (* P3 *) destruct (Nat.eqb_spec (cell s (cj T)) (nd T)) as [E|E].
+    + pose proof (HF (set_held T (upd (held T) (sl T) (nd T))) (nname (nd T))) as E2.
+      destruct (finish _ _ _ _ _) as [T2 e2]. cbn [fst] in *. ssimp. rewrite upd_same in *. tsimp.
+      rewrite E2 in *. destruct (Nat.eq_dec i (sl T)) as [->|Hi].
+      * rewrite upd_same in *. repeat split; auto.
+        rewrite HT. apply (v_p3 s (i_v s I)). rewrite <- HT; auto.
+      * rewrite upd_other in Hn by auto. tauto.
+    + exfalso. apply Hn. pose proof (HF T 0%Z) as E2. destruct (finish _ _ _ _ _) as [T2 e2].
+      cbn [fst] in *. ssimp. rewrite upd_same. congruence.
+  - (* C1 *) exfalso. apply Hn.
+    pose proof (HF (set_held T (upd (held T) (sl T) 0)) 1%Z) as E2. destruct (finish _ _ _ _ _) as [T2 e2].
+    cbn [fst] in *. ssimp. rewrite upd_same. rewrite E2. tsimp. unfold upd. destruct (i =? sl T); auto.
+  - (* X0 *) exfalso. apply Hn. destruct (pool s).
+    + pose proof (HF T (-1)%Z) as E2. destruct (finish _ _ _ _ _) as [T2 e2].
+      cbn [fst] in *. ssimp. rewrite upd_same. congruence.
+    + cbn [fst]. ssimp. rewrite upd_same. tsimp. auto.
+  - (* S4 *) exfalso. apply Hn. destruct (rnext s (cur T) =? 0).
+    + pose proof (HF (set_rlist T (scan_keep sort (snap T) (rlist T)))
+                     (Z.of_nat (length (scan_keep sort (snap T) (rlist T))))) as E2.
+      destruct (finish _ _ _ _ _) as [T2 e2]. cbn [fst] in *. ssimp. rewrite upd_same. rewrite E2. tsimp. auto.
+    + cbn [fst]. ssimp. rewrite upd_same. tsimp. auto.
+Qed.
